@@ -192,7 +192,11 @@ def _run_case(case):
 
 
 # ----------------------------------------------------------------- generators
-def tiny(salt=0, props=True):
+def tiny(salt=0, props=True, small=False):
+    if small:   # quick tier: one property with a missing mask (≈60 mutations in format 2)
+        return {"id_dtype": "uint16", "ids": [3, 5, 9], "edges": [[3, 5], [5, 9]],
+                "nprops": [{"name": "a", "kind": "f8", "missing": True}] if props else [], "eprops": [],
+                "directed": True, "salt": salt}
     return {"id_dtype": "uint16", "ids": [3, 5, 9], "edges": [[3, 5], [5, 9]],
             "nprops": [{"name": "a", "kind": "f8", "missing": True}, {"name": "z", "kind": "zeros"}] if props else [],
             "eprops": [{"name": "w", "kind": "i4"}] if props else [], "directed": True, "salt": salt}
@@ -213,9 +217,9 @@ def gen_cases(ck):
                 for entry in ("write_arrays", "api_nx"):
                     if ck.quick and entry == "api_nx" and (kind == "local" or pre == "foreign"):
                         continue
-                    new = tiny(1) if entry == "write_arrays" else K.spatial_spec(rng, salt=1)
+                    new = tiny(1, small=ck.quick) if entry == "write_arrays" else K.spatial_spec(rng, salt=1)
                     cases.append({"fmt": fmt, "kind": kind, "sib": "foreign" in pre,
-                                  "old": tiny(5, props=True) if "old" in pre else None,
+                                  "old": tiny(5, props=True, small=ck.quick) if "old" in pre else None,
                                   "entry": entry, "new": new, "overwrite": "old" in pre, "validation": True,
                                   "stream": "matrix"})
     # seeded random structured cases
@@ -320,18 +324,19 @@ def run(ck: common.Check):
         ck.broken.append({"what": "driver Drivers/C05.lean", "detail": drv.broken})
         answers = [None] * len(good)
     model_of = {id(r): a for r, a in zip(good, answers)}
-    n_points = n_wrong = n_batch = 0
+    n_points = n_wrong = n_batch = n_traces = 0
+    no_model = len([r for r in results if "harness_error" not in r and r.get("g") is None])
     verdicts: dict[str, int] = {}
     for r in results:
         c = r["case"]
         if "harness_error" in r:
             ck.broken.append({"what": "corr C05:harness", "detail": {"case": c, "error": r["harness_error"], "tb": r.get("tb")}})
             continue
-        tag = f"{c['stream']}/{c['entry']}/{c['kind']}/v{c['fmt']}/" + (
-            "ow" if c.get("old") is not None and c.get("overwrite") else "refuse" if c.get("old") is not None else "fresh") + (
+        pre_tag = ("ow" if c.get("old") is not None and c.get("overwrite") else
+                   "refuse" if c.get("old") is not None else "fresh")
+        tag = f"{c.get('stream', 'corpus')}/{c['entry']}/{pre_tag}" + (
             "/" + c["new"]["invalid"] if c["new"].get("invalid") else "")
-        ck.case({k: v for k, v in c.items()}, tag=tag.split("/")[0] + "/" + tag.split("/")[1] + "/" + tag.split("/")[-1]
-                if c["new"].get("invalid") else "/".join(tag.split("/")[:2] + tag.split("/")[4:5]), nontrivial=bool(r["ops"]))
+        ck.case({k: v for k, v in c.items()}, tag=tag, nontrivial=bool(r["ops"]))
         inv = c["new"].get("invalid")
         # ---- oracle on the fault-free run
         if inv is None:
@@ -396,6 +401,7 @@ def run(ck: common.Check):
             ck.corr_broken("C05:writeOps", c, {"out": r["out0"], "n": len(r["ops"]), "at": first, "op": r["ops"][first:first + 2]},
                            {"out": m["outcome"], "n": len(mops), "op": mops[first:first + 2]})
             continue
+        n_traces += 1
         mfinal = [[k, b] for k, b in m["final"]]
         rfinal = r["final"]
         if (sorted(mfinal) != sorted(rfinal)) or (c["kind"] == "mem" and mfinal != rfinal):
@@ -423,8 +429,12 @@ def run(ck: common.Check):
             # recognised is necessary for acceptance (only prefix states are reported by the driver)
             if not idx and p["verdict"] in ("new", "old", "WRONG") and not m["rec"][k]:
                 ck.corr_broken("C05:recognised-not-necessary", {**c, "fail_at": k}, p["verdict"], "model: not recognised")
-    ck.extra.update(fault_points=n_points, fault_verdicts=verdicts, faults_with_concurrent_siblings=n_batch,
-                    cases_total=len(cases))
+    ck.extra.update(transitions=n_points, traces_validated_against_impl=n_traces, fault_points=n_points, fault_verdicts=verdicts, faults_with_concurrent_siblings=n_batch,
+                    cases_total=len(cases), cases_without_model_input=no_model)
+    ck.extra["explanation"] = (
+        "proof about the op-sequence model (all graphs, all crash points, all sub-batch failure states); the model is tied to "
+        "the implementation by exact comparison of recorded store-mutation traces and by fault injection at every mutation; "
+        "array contents and the validation verdict are parameters of the model, atomicity of one store mutation is assumed")
     ck.assumptions += [
         "a single store mutation (set / set_if_not_exists / delete) is atomic; LocalStore.delete_dir and the "
         "shutil.rmtree of a str/Path root are single atomic operations (they are not sequences of store mutations)",
